@@ -24,7 +24,7 @@ def _case(draw):
             'hp': {'factor_update_steps': 1, 'inv_update_steps': draw(st.sampled_from([1, 1, 2])), 'damping': 0.05, 'factor_decay': 0.9,
                    'kl_clip': 1e30, 'lr': 0.1},
             'T': T, 'c': draw(st.integers(1, T)), 'dir_mode': draw(st.booleans()), 'compute_inverses': draw(st.booleans()),
-            'data_seed': draw(st.integers(0, 999)), 'schedule': draw(st.lists(st.integers(0, 63), max_size=200)), 'flip': draw(st.booleans())}
+            'data_seed': draw(st.integers(0, 999)), 'schedule': draw(st.lists(st.integers(0, 63), max_size=200)), 'flip': draw(st.booleans()), 'rollback_live': draw(st.booleans())}
 
 
 class C18(Prop):
@@ -142,7 +142,7 @@ class C18(Prop):
             # rolling back IN PLACE (same preconditioner objects, weights put back) must behave like resuming in fresh ones
             if c < T:
                 rb = gptrun.run_gpt(run_case, [train(t) for t in range(c)] + [{'op': 'snapshot'}] + [train(t) for t in range(c, T)]
-                                    + [{'op': 'rollback', 'compute_inverses': ci}] + [train(t) for t in range(c, T)], case['schedule'], case['flip'])
+                                    + [{'op': 'rollback', 'compute_inverses': ci, 'live': bool(case.get('rollback_live'))}] + [train(t) for t in range(c, T)], case['schedule'], case['flip'])
                 if rb.timed_out:
                     raise RuntimeError('simulation timed out (harness)')
                 if not rb.ok:
